@@ -1217,8 +1217,17 @@ func (c *Ctx) checkScaleAccidentalSlices() {
 		ast.Inspect(cc, func(n ast.Node) bool {
 			switch x := n.(type) {
 			case *ast.KeyValueExpr:
-				if id, ok := x.Key.(*ast.Ident); ok && id.Name == "isSharp" {
-					if tv := p.TypesInfo.Types[x.Value]; tv.Value != nil {
+				// the bool field of the literal (isSharp, whatever it is called)
+				isBoolField := false
+				if id, ok := x.Key.(*ast.Ident); ok {
+					if fv, ok := p.TypesInfo.Uses[id].(*types.Var); ok && fv.IsField() {
+						if bt, ok := fv.Type().Underlying().(*types.Basic); ok && bt.Kind() == types.Bool {
+							isBoolField = true
+						}
+					}
+				}
+				if isBoolField {
+					if tv := p.TypesInfo.Types[x.Value]; tv.Value != nil && tv.Value.Kind() == constant.Bool {
 						b.isSharp = constant.BoolVal(tv.Value)
 					}
 				}
